@@ -371,3 +371,9 @@ impl TickMarker {
         TickMarker::Absolute(tick)
     }
 }
+
+#[cfg(kani)]
+mod verif_kani {
+    use super::*;
+    include!(concat!(env!("LIBTW2_VERIF_HARNESS"), "/demo_format.rs"));
+}
